@@ -25,8 +25,8 @@ except ImportError:
 
 def _get_color_from_string(a_string: str, colors: bool):
     if colors:
-        hash_str = f"{crc32(a_string.encode('utf-8'))}"
-        return f"#{hash_str[2:8]}"
+        # 6 hexadecimal digits, whatever the crc value (the empty string has a crc of 0)
+        return f"#{crc32(a_string.encode('utf-8')) & 0xFFFFFF:06X}"
     return "#F0F0F0"
 
 
